@@ -190,7 +190,7 @@ func runC19Race(ctx *core.Ctx) {
 		ctx.Count("race:unavailable")
 		return
 	}
-	n := ctx.Pick(160, 1200)
+	n := ctx.Pick(160, 3000)
 	for i := 0; i < n; i++ {
 		var job raceJob
 		job.Seed = ctx.Rng.Int63()
